@@ -382,6 +382,9 @@ class Tensor(Funsor, metaclass=TensorMeta):
             # the result is always a valid cell, and cells of zero mass are
             # skipped even when r == 0.
             flat_sample = np.sum(s[..., :-1] <= np.expand_dims(r, -1), axis=-1)
+            # Rounding guard: never move past the last cell of positive mass.
+            last = probs.shape[-1] - 1 - np.argmax((probs > 0)[..., ::-1], axis=-1)
+            flat_sample = np.minimum(flat_sample, last)
 
         assert flat_sample.shape == sample_shape + batch_shape
         results = []
